@@ -15,11 +15,11 @@ def _gen(ctx, gopkg):
 
 def run(ctx):
     q = ctx.tier == "quick"
-    n_salt, n_prov, n_leg, n_ks = (600, 450, 450, 150) if q else (12000, 7500, 7500, 2500)
+    n_salt, n_prov, n_leg, n_ks = (600, 450, 450, 225) if q else (12000, 7500, 7500, 3750)
     hdr = HDR.format(imports="lib.TokSplit model.C19_model model.C19_run")
 
     def stages(ctx, mult, suffix, off):
-        def st(name, pkg, gopkg, f, test, n, pam=False, shard=50):
+        def st(name, pkg, gopkg, f, test, n, pam=False, shard=60):
             ctx.stage(name + suffix, pkg, gopkg, ["C19/" + f], test, n * mult, hdr, seed_offset=off, shard=shard, pam=pam,
                       replace={pkg + "/zz_verif_c19gen_test.go": _gen(ctx, gopkg)}, env={"VERIF_STAGE": name + suffix})
         st("c19salt", "sdk/go/auth", "auth", "zz_verif_c19salt_test.go", "TestVerifC19Salt$", n_salt, shard=100)
@@ -29,11 +29,20 @@ def run(ctx):
     return standard(ctx, "C19", ["model/C19_run.vo"], stages, known_bits={4: "F6b", 8: "F6b"},
                     rule="token strings of every shape (v2 with secrets of length 0-60 incl. every length 38-42 hex and non-hex, extra path "
                          "segments, malformed v2, legacy 41+ characters, near-legacy, JWT-like, random bytes) x remote ids; provider with 0-4 "
-                         "tokens and a stub local backend (401 / error / resolved to the remote's or another cluster's uuid); legacy "
-                         "saltAuthToken with tokens in every subset of {Bearer/OAuth2/Basic header, query, form body, cookie}; keepstore "
-                         "remoteClient; distinct by hash of the case term; non-trivial = SaltToken/remoteClient case, provider call with "
-                         "credentials and at least one token, legacy request carrying at least one unsalted v2 secret",
+                         "tokens and a stub local backend (401 / error / resolved to the remote's or another cluster's uuid); legacy controller "
+                         "path observed at the wire (recording HTTP transport): remoteClusterRequest with tokens in every subset of {Bearer/OAuth2/"
+                         "Basic header, query, form body, cookie} and a stub database (unreachable / token unknown / user local, of the remote, "
+                         "of a third cluster), and the whole handler stack (by uuid, cluster_id, multi-cluster uuid query, collection by PDH, "
+                         "container request for another cluster with token origin x user origin x scopes); federation.Conn.ContainerRequestCreate "
+                         "(token issued here / elsewhere / legacy / unknown x user origin x scopes x explicit runtime_token x target) and other Conn "
+                         "methods over real rpc.Conn remotes; keepstore remoteClient and remoteProxy.Get with a recording keep client; distinct by "
+                         "hash of the case term; non-trivial = SaltToken/remoteClient/Get/ContainerRequestCreate case, provider call with credentials "
+                         "and at least one token, legacy request carrying a secret (stack: and sent to a remote), Conn method that sent a request",
                     assumptions=["HMAC-SHA1 is computed by the Gallina implementation lib/Sha1.v (validated by this correspondence)",
-                                 "legacy saltAuthToken is run with the database unreachable: a first token that needs a database lookup makes it fail",
-                                 "non-disclosure is judged by substring search for secrets of 41-60 characters unique to the case, in every reading "
-                                 "(raw, URL-unescaped, base64-decoded) of the outgoing request's parts"])
+                                 "the controller's database is a stub behind Handler.db() (answers validateAPItoken's SELECT from a per-case table, records "
+                                 "createAPItoken's INSERT) or unreachable; federation.Conn runs with a stub local backend, so creating a runtime token "
+                                 "fails there (the legacy stack creates one through the stub database)",
+                                 "non-disclosure is judged in Coq by substring search for the case's secrets (41-60 characters, unique to the case) in "
+                                 "every part of every request handed to the HTTP transport for a remote cluster (Authorization, query string, body, "
+                                 "Cookie, other headers, method/host/path), in every reading the harness prints (raw, URL-unescaped once and twice, "
+                                 "base64-decoded); net/http's own serialisation of the request is not exercised"])
